@@ -121,8 +121,11 @@ def run(ctx):
             continue
         routing = S.make_routing(ctx.rng, c, "fundamental")
         small_dod = float(c["dod"]) < 0.2
-        for kind in ("uniform", "uniform", "corner", "edge1") + (("lambda_grid",) * 40 if small_dod else ()):
-            xs = S.point(ctx.rng, b["numVars"], "uniform" if kind == "lambda_grid" else kind)
+        near_one = abs(float(c["dod"]) - 1) < 1e-6
+        for kind in ("uniform", "uniform", "corner", "edge1") + (("lambda_grid",) * 40 if small_dod else ()) + (("lambda_edge",) * 8 if near_one else ()):
+            xs = S.point(ctx.rng, b["numVars"], "uniform" if kind in ("lambda_grid", "lambda_edge") else kind)
+            if kind == "lambda_edge":
+                xs[2 * len(c["edges"]) - 2] = ctx.rng.choice([0.0, 5e-324, 2.0 ** -55, 1e-17, 2.0 ** -54, 2.0 ** -53, 1e-300])
             if kind == "lambda_grid":
                 xs[2 * len(c["edges"]) - 2] = ctx.rng.choice([ctx.rng.random(), ctx.rng.random() ** 3, 0.125, 0.25, 0.0625, 1e-3, 9.25e-4, 0.5])
             ss.append(dict(case=c, routing=routing, table=b["table"], built=b, xs=xs, kind=kind, group=None,
